@@ -274,7 +274,7 @@ def load_known():
 
 
 def finish(prop, tier, seed, t0, outcomes, rule, required_bits=(), extra_cov=None, extra_viol=(), extra_inconc=(),
-           assumptions=(), min_cases=1):
+           assumptions=(), min_cases=1, extra_signatures=(), extra_evaluations=0, extra_bits=None, extra_samples=()):
     """Aggregate, match known findings, write evidence, print verdict lines; returns the exit code."""
     known = [k for k in load_known().get("known", []) if k.get("property") == prop]
     evaluations = 0
@@ -314,6 +314,14 @@ def finish(prop, tier, seed, t0, outcomes, rule, required_bits=(), extra_cov=Non
     for key, detail, case in extra_viol:
         if key not in viols:
             viols[key] = (detail, case)
+    evaluations += int(extra_evaluations)
+    for sgn in extra_signatures:
+        signatures.add(sgn)
+    for k, v in (extra_bits or {}).items():
+        bits[k] = bits.get(k, 0) + v
+    for smp in extra_samples:
+        if len(samples) < 8:
+            samples.append(smp)
     missing = [b for b in required_bits if not bits.get(b)]
     if missing and not viols:
         inconcl.append("required path bits never observed: %s" % ", ".join(missing))
